@@ -32,13 +32,14 @@ class _TimeShim:
         self._now = nowfn
 
     def monotonic(self) -> float:
-        return self._now()
+        return self._now() + SKEW[0]
 
     def __getattr__(self, name):
         return getattr(self._real, name)
 
 
 _PATCHED: list = []
+SKEW = [0.0]  # "time passed between two statements": added to the clock httpcore sees (never to the event loop's)
 
 
 def patch_time(nowfn) -> int:
@@ -46,6 +47,7 @@ def patch_time(nowfn) -> int:
     import time as _time
 
     unpatch_time()
+    SKEW[0] = 0.0
     n = 0
     for name, mod in list(sys.modules.items()):
         if not (name == "httpcore" or name.startswith("httpcore.")) or mod is None:
@@ -212,11 +214,27 @@ class _SpinInstrument(trio.abc.Instrument):
             self.spin = 0
 
 
+_CUR_SPIN: list = [None]
+
+
+def reset_spin() -> None:
+    """A new scenario starts: iterations of earlier scenarios at the same virtual instant do not count against it."""
+    try:
+        loop = asyncio.get_running_loop()
+    except RuntimeError:
+        loop = None
+    if isinstance(loop, VLoop):
+        loop._selector._spin = 0
+    elif _CUR_SPIN[0] is not None:
+        _CUR_SPIN[0].spin = 0
+
+
 def run_trio(main, net: Net, seed: int = 0, on_idle=None):
     _trio_run._ALLOW_DETERMINISTIC_SCHEDULING = True
     _trio_run._r = random.Random(seed)
     clock = _Clock(on_idle)
     spin = _SpinInstrument()
+    _CUR_SPIN[0] = spin
 
     async def outer():
         base = trio.current_time()
